@@ -22,11 +22,11 @@ const PropertyInfo kInfo = {
     "tape -> one surface per case (handshake: node + CLI validators and both solvers / announce / store / bootstrap token); field values "
     "expanded from a seed: 32-byte ids (random, all-0, all-FF, equal), public key from {0,1,2,2^31-1,2^31,2^32-2,2^32-1} or random, "
     "endpoint/URI/filename strings with length from {0,1,2,47,55,56,63,64,119,120,255,256,1024} or <=300 (printable, arbitrary bytes incl. NUL, "
-    "or typical text), shard lists of {0,1,2,255,256,300} or <=40 bytes, TTL from {0,1,-1,3600,86400,2^32,2^63-1,-2^63} or random, size from "
-    "{0,1,2^32-1,2^32,2^63,2^64-1} or random; solver difficulty 0..8 (80%), 9..12 (18%), 13..15 (1.5%), 16..18 (0.05%); solver attempt budget from "
+    "or typical text; at most 24 bytes when the solver difficulty is >= 9), shard lists of {0,1,2,255,256,300} or <=40 bytes, TTL from {0,1,-1,3600,86400,2^32,2^63-1,-2^63} or random, size from "
+    "{0,1,2^32-1,2^32,2^63,2^64-1} or random; solver difficulty 0..8 (90%), 9..12 (9%), 13..15 (1.1%), 16..18 (0.05%); solver attempt budget from "
     "{default,1,2,100,4096,500000}. One implicit probe (solver nonce at the solver difficulty) + one probe per record: nonce in {solver's, "
     "solver+1, solver-1, random 64-bit, small, 0, 2^64-1, the other handshake solver's}; optional single-field metamorphic mutation after "
-    "solving (bit flip in an id / key / TTL / size, swap two ids, append / drop / flip a string byte, move one byte across a field boundary); "
+    "solving, 3/4 of them probing the solver's nonce (bit flip in an id / key / TTL / size, swap two ids, append / drop / flip a string byte, move one byte across a field boundary); "
     "difficulty in {solver's, 23..25, L, L+1, 255, 0, 1, raw 0..255} and always also {0, L-1, L, L+1, 24, 25, 255} where L = reference zero "
     "count of that probe's digest.  Oracle: validator(fields, nonce, d) == (d == 0 or L >= d), with d capped at 24 for store_pow_valid; for "
     "the handshake/announce helpers, which Node caps in its Config rather than in the helper, d > 24 is asserted only where the capped and "
@@ -172,14 +172,14 @@ const std::int64_t kShardLen[] = {0, 1, 2, 255, 256, 300};
 const char* kTypical[] = {"203.0.113.7:45000", "control://198.51.100.20:47777", "eph://AAECAwQFBgcICQoLDA0ODw", "report-2026.pdf",
                           "[2001:db8::1]:45000", "a"};
 
-std::string gen_string(std::uint8_t sel, std::uint32_t v, Prng& g) {
-    std::size_t len = static_cast<std::size_t>(boundary_int(sel, v, kStrLen, 0, 300));
+std::string gen_string(std::uint8_t sel, std::uint32_t v, Prng& g, std::size_t cap) {
+    std::size_t len = std::min(cap, static_cast<std::size_t>(boundary_int(sel, v, kStrLen, 0, 300)));
     unsigned mode = static_cast<unsigned>(g.below(3));
     if (sel == 0) return {};
     std::string s;
     if (mode == 2) {
         s = kTypical[g.below(6)];
-        if (!(sel & 0x80)) return s;
+        if (!(sel & 0x80)) { if (s.size() > cap) s.resize(cap); return s; }
     }
     while (s.size() < len) s.push_back(mode == 1 ? static_cast<char>(g.byte()) : static_cast<char>(0x20 + g.below(95)));
     s.resize(len);
@@ -320,9 +320,9 @@ void run_case(Ctx& c) {
     // ---- solver difficulty
     // (solving costs 2^ds hashes; the zero counters are covered exhaustively elsewhere, so high ds is kept rare)
     unsigned ds;
-    if (t.h(1) < 205) ds = t.h(1) % 9;                       // 0..8   80 %
-    else if (t.h(1) < 252) ds = 9 + (t.h(1) - 205) % 4;      // 9..12  18 %
-    else if (t.h(1) < 255 || t.h(20) >= 32) ds = 13 + (t.h(1) + t.h(20)) % 3;  // 13..15  1.5 %
+    if (t.h(1) < 230) ds = t.h(1) % 9;                       // 0..8   90 %
+    else if (t.h(1) < 253) ds = 9 + (t.h(1) - 230) % 4;      // 9..12  9 %
+    else if (t.h(1) < 255 || t.h(20) >= 32) ds = 13 + (t.h(1) + t.h(20)) % 3;  // 13..15  1.1 %
     else ds = 16 + t.h(20) % 3;                              // 16..18  0.05 %
 
     // ---- fields
@@ -333,10 +333,12 @@ void run_case(Ctx& c) {
     f.b = idshape == 3 ? f.a : gen_id((t.h(6) >> 3) % 8 == 1 ? 1 : (t.h(6) >> 3) % 8 == 2 ? 2 : 0, g);
     static const std::int64_t kPub[] = {0, 1, 2, 0x7FFFFFFF, 0x80000000ll, 0xFFFFFFFEll, 0xFFFFFFFFll};
     f.pub = static_cast<std::uint32_t>(boundary_int(t.h(7), g.next(), kPub, 0, 0xFFFFFFFFll));
-    f.s1 = gen_string(t.h(8), t.h16(16), g);
-    f.s2 = gen_string(t.h(9), t.h16(18), g);
+    // an expensive solve (ds >= 9) keeps the hashed message within two SHA-256 blocks
+    const std::size_t cap = ds >= 9 ? 24 : 4096;
+    f.s1 = gen_string(t.h(8), t.h16(16), g, cap);
+    f.s2 = gen_string(t.h(9), t.h16(18), g, cap);
     {
-        std::size_t n = static_cast<std::size_t>(boundary_int(t.h(10), t.h16(18), kShardLen, 0, 40));
+        std::size_t n = std::min(cap / 4, static_cast<std::size_t>(boundary_int(t.h(10), t.h16(18), kShardLen, 0, 40)));
         f.shards = g.bytes(n);
     }
     static const std::int64_t kTtl[] = {0, 1, -1, 3600, 86400, 4294967296ll, INT64_MAX, INT64_MIN};
@@ -418,7 +420,9 @@ void run_case(Ctx& c) {
         Prng ng(narg ^ 0x5EEDull);
         const char* nkn = "";
         std::uint64_t base = solved ? *solved : ng.next();
-        switch (nk % 8) {
+        // a mutation is most telling on the nonce that was solved for the unmutated fields
+        const unsigned kind = (mk >= 128 && (nk >> 3) % 4 != 0) ? 0 : nk % 8;
+        switch (kind) {
             case 0: nonce = base; nkn = solved ? "solver" : "random"; break;
             case 1: nonce = base + 1; nkn = "solver+1"; if (solved) c.label("solver_pm1"); break;
             case 2: nonce = base - 1; nkn = "solver-1"; if (solved) c.label("solver_pm1"); break;
